@@ -3,7 +3,7 @@ From Coq Require Import QArith Qcanon List Bool Arith String.
 From PV.Base Require Import Sums.
 From PV.Model Require Import Resistive.
 From PV.Gen Require Import ResistiveK.
-From PV.Proofs Require Import Resistive ResistiveGen.
+From PV.Proofs Require Import Resistive ResistiveGen Energy.
 Import ListNotations.
 Close Scope string_scope.
 Open Scope Qc_scope.
@@ -98,3 +98,18 @@ Theorem C18_stale_without_reset :
   snd (step 2 (fun r => r) false s Diameter) <> spec 2 (fun r => r) (res s) Diameter.
 Proof. exact stale_without_reset. Qed.
 Print Assumptions C18_stale_without_reset.
+
+(* effective resistances of a network with non-negative conductances are
+   non-negative: eff = dissipated energy 1/2 sum c_ij (v_i - v_j)^2 of the
+   unit current *)
+Theorem C18_nonnegative n c R a b : (a < n)%nat -> (b < n)%nat ->
+  (forall i j, c i j = c j i) -> (forall i j, 0 <= c i j) ->
+  is_pinv n (lap n c) R -> 0 <= eff R a b.
+Proof. exact (eff_nonneg n c R a b). Qed.
+Print Assumptions C18_nonnegative.
+
+Theorem C18_energy_form n c (v : nat -> Qc) : (forall i j, c i j = c j i) ->
+  (1 + 1) * sumn n (fun i => v i * sumn n (fun j => lap n c i j * v j))
+  = sumn n (fun i => sumn n (fun j => c i j * ((v i - v j) * (v i - v j)))).
+Proof. exact (energy_form n c v). Qed.
+Print Assumptions C18_energy_form.
